@@ -163,6 +163,31 @@ def run(ctx):
                                                        errs, want), rep)
                 elif errs != want and not how:
                     drift += 1
+    # directed family: under schemas that do NOT mark Duration / Delay as top-level-group tags (8.0.0, 8.1.0 and libraries partnered
+    # with them) the two are ordinary value tags: grouped or not, with any companions, they are rule-conforming constructs
+    from hed import HedString as _HS
+    nold = 0
+    for v in versions:
+        schema, dd, vocab = _schema(v)
+        if not getattr(vocab, "plain_duration_delay", False):
+            continue
+        p1 = vocab.form(vocab.plain[(ctx.seed * 7 + 3) % len(vocab.plain)], ctx.seed)
+        p2 = vocab.form(vocab.plain[(ctx.seed * 11 + 5) % len(vocab.plain)], ctx.seed + 1)
+        for text in ["(Duration/3 s, (%s))" % p1, "(Delay/3 s, (%s))" % p1, "(Duration/3 s, %s)" % p1, "Duration/3 s, %s" % p2,
+                     "(Delay/2 s, %s, %s)" % (p1, p2), "(Delay/1 s, Duration/3 s, (%s))" % p2, "((Duration/2.5 s, %s), %s)" % (p1, p2)]:
+            for allow_ph in (False, True):
+                ctx.case("old-schema-duration|%s|%s|%s" % (v, text, allow_ph), nontrivial=False)
+                nold += 1
+                try:
+                    errs = sorted({i["code"] for i in _HS(text, schema, dd).validate(allow_placeholders=allow_ph) if i.get("severity", 1) == 1})
+                except Exception as ex:  # noqa
+                    errs = ["<raised %s>" % type(ex).__name__]
+                if errs:
+                    ctx.violation("valid-rejected:" + ",".join(errs),
+                                  "schema %s (Duration and Delay are ordinary value tags there): rule-conforming annotation %r reported %s"
+                                  % (v, text, errs), {"version": v, "allow_ph": allow_ph, "text": text,
+                                                      "case": {"nviol": 0, "par": [], "kind": [], "sflaw": "none", "codes": []}, "flaw": None})
+    ctx.note("old_schema_duration_delay_annotations", nold)
     ctx.note("multi_violation_cases_with_different_code_sets", drift)
     ctx.note("validations_per_schema", used)
     ctx.note("trees", len(cases))
